@@ -230,6 +230,18 @@ bool File::copy(const String& src, const String& destination, bool failIfExists)
     int fd = ::open(src, O_RDONLY);
     if(fd == -1)
       return false;
+    struct stat srcStat;
+    int srcError = 0;
+    if(fstat(fd, &srcStat) != 0)
+      srcError = errno;
+    else if(S_ISDIR(srcStat.st_mode))
+      srcError = EISDIR; // a directory can be opened but not copied
+    if(srcError)
+    { // fail before the destination is created
+      ::close(fd);
+      errno = srcError;
+      return false;
+    }
     off64_t size = lseek(fd, 0, SEEK_END);
     if(size < 0)
       return false;
